@@ -199,3 +199,100 @@ def check(chk, facts):
         chk.ob(rule, "UnaryOp::" + vn, not probs, "UnaryOp::%s prints `%s`%s" % (vn, tok, (": " + "; ".join(probs)) if probs else " — a token / method name the parser reads as the same operator"),
                key="%s:UnaryOp::%s:%s" % (rule, vn, ";".join(probs)))
     chk.floor(rule, "operators", n, 15)
+    est_printer_tokens(chk, facts)
+
+
+def est_printer_tokens(chk, facts):
+    """The expression printer (BoundedDisplay for est::ExprNoExt) writes, for each infix node kind, one operator token between its
+    operands; read back through the grammar and the lowering, that token must build the same node kind in the EST's own builder
+    (operands in order). && and || are the separators of the grammar's And / Or repetitions, folded with builder.and / builder.or."""
+    from lib import fmtstr
+    rule = "C05.PRINT.esttoken"
+    PRINTER = "<cedar_policy_core::est::expr::ExprNoExt as cedar_policy_core::ast::value::BoundedDisplay>::fmt"
+    f = get_fn(chk, facts, rule, PRINTER)
+    ADT = CORE + "est::expr::ExprNoExt"
+    r = facts.adts.get(ADT)
+    if f is None or r is None:
+        return
+    g = grammar.load()
+    bm = hom.builder_map(facts, CORE + "est::expr::Builder", ("est::expr::ExprNoExt", "est::expr::ExtFuncCall"))
+    methods = set(bm)
+    rel = None
+    for n in facts.fns.index:
+        if n.startswith(CORE + "parser::cst_to_ast::construct_expr_rel") and "closure" not in n:
+            rel = facts.fns[n]
+    addn = facts.fn(CORE + "expr_builder::ExprBuilder::add_nary")
+    muln = facts.fn(CORE + "expr_builder::ExprBuilder::mul_nary")
+    if rel is None or addn is None or muln is None:
+        chk.lost(rule, "construct_expr_rel / add_nary / mul_nary")
+        return
+    rel_m = switch_to_methods(facts, rel, "parser::cst::RelOp", CORE + "parser::cst::RelOp", methods)
+    add_m = switch_to_methods(facts, addn, "parser::cst::AddOp", CORE + "parser::cst::AddOp", methods, bodies=facts.closures_of(addn.name))
+    mul_calls = [callee(t).split("::")[-1] for c_ in facts.closures_of(muln.name) for _, t in c_.calls() if callee(t).split("::")[-1] in methods and len(t[2]) > 2]
+    folds = {}
+    for nm, sep in (("or_nary", "or"), ("and_naryl", "and")):
+        fn_ = facts.fn(CORE + "expr_builder::ExprBuilder::" + nm)
+        calls = []
+        if fn_ is not None:
+            for c_ in [fn_] + facts.closures_of(fn_.name):
+                calls += [callee(t).split("::")[-1] for _, t in c_.calls() if callee(t).split("::")[-1] in ("and", "or")]
+        folds[nm] = sorted(set(calls))
+    sws = sorted(shape.variant_switches(f, "est::expr::ExprNoExt"), key=lambda s_: -len(s_[2]))
+    if not sws:
+        chk.lost(rule, "match on ExprNoExt in the printer")
+        return
+    b, scrut, arms, other = sws[0]
+    INFIX = ("Eq", "NotEq", "In", "Less", "LessEq", "Greater", "GreaterEq", "And", "Or", "Add", "Sub", "Mul")
+    n = 0
+    for vi, tgt in sorted(arms.items()):
+        vn = r["variants"][vi]["name"]
+        if vn not in INFIX:
+            continue
+        region = own_region_simple(f, tgt)
+        lits = []
+        for s_ in fmtstr.sites(f, region):
+            if s_["pieces"]:
+                for p_ in s_["pieces"]:
+                    if p_[0] == "lit":
+                        lits += p_[1].split()
+        probs = []
+        m = None
+        path = None
+        if len(lits) != 1:
+            probs.append("writes the tokens %s" % lits)
+        else:
+            tok = lits[0]
+            if tok in g["ops"]["RelOp"]:
+                ms = rel_m.get(g["ops"]["RelOp"][tok], [])
+                path = "RelOp::" + g["ops"]["RelOp"][tok]
+                m = ms[0][0] if len(ms) == 1 else None
+            elif tok in g["ops"]["AddOp"]:
+                ms = add_m.get(g["ops"]["AddOp"][tok], [])
+                path = "AddOp::" + g["ops"]["AddOp"][tok]
+                m = ms[0][0] if len(ms) == 1 else None
+            elif tok in g["ops"]["MultOp"] and g["ops"]["MultOp"][tok] == "Times":
+                path = "MultOp::Times"
+                m = mul_calls[0] if len(mul_calls) == 1 else None
+            elif tok in g["sep"]:
+                prod = g["sep"][tok]
+                path = "separator of " + prod
+                nary = {"Or": "or_nary", "And": "and_naryl"}.get(prod)
+                fm = folds.get(nary, [])
+                m = fm[0] if len(fm) == 1 else None
+            else:
+                probs.append("token `%s` is not an infix operator of the grammar" % tok)
+            if m is None and not probs:
+                probs.append("token `%s` (%s) has no unique lowering" % (tok, path))
+        if m is not None:
+            b_ = bm.get(m, {})
+            sig = b_.get("sig")
+            if b_.get("variant") != vn or b_.get("fields") not in ({"left": [2], "right": [3]},):
+                probs.append("reading `%s` back builds %s" % (lits[0], sig))
+        n += 1
+        chk.ob(rule, vn, not probs, "EST %s prints `%s`; read back through %s -> builder.%s%s" % (vn, " ".join(lits), path, m, (": " + "; ".join(probs)) if probs else " -> the same node, operands in order"),
+               where=f.where(), fn=f.name, key="%s:%s:%s" % (rule, vn, ";".join(probs)), sample={"variant": vn, "token": lits, "reader": path, "builder": m})
+    chk.floor(rule, "infix node kinds", n, 12)
+
+
+def own_region_simple(f, tgt):
+    return cfg.dominated_region(f, tgt)
